@@ -240,7 +240,8 @@ class Engine:
             m = self._preferred_model(list(self.lemmas))
             if m is not None:
                 return m
-            self.check(*self.lemmas)
+            if self.check(*self.lemmas) != z3.sat:
+                return None
         return self.solver.model()
 
     # -- exploration -----------------------------------------------------------
